@@ -206,10 +206,13 @@ pub struct Checks {
     pub canon: bool,
     /// C16: record the canonical string of every result
     pub record_canon: bool,
+    /// keep the result pointers (pool reconstruction)
+    pub keep_ptrs: bool,
 }
 
 #[derive(Default)]
-pub struct HistResult {
+pub struct HistResult<'a> {
+    pub ptrs: Vec<BddPtr<'a>>,
     pub canon: Vec<String>,
     pub grows: u64,
     pub lru_grows: u64,
@@ -260,7 +263,7 @@ fn triple_class(f: BddPtr, g: BddPtr, h: BddPtr, order: &VarOrder) -> String {
     format!("{}{}{}:{}{}{}", k(f), k(g), k(h), rel(f, g), rel(f, h), rel(g, h))
 }
 
-pub fn exec_history<'a, B: Robdd<'a>>(ctx: &mut Ctx, cfg: &HistCfg, b: &'a B, ops: &[Op], checks: &Checks) -> HistResult {
+pub fn exec_history<'a, B: Robdd<'a>>(ctx: &mut Ctx, cfg: &HistCfg, b: &'a B, ops: &[Op], checks: &Checks) -> HistResult<'a> {
         {
             {
             let n = cfg.n_total();
@@ -424,6 +427,9 @@ pub fn exec_history<'a, B: Robdd<'a>>(ctx: &mut Ctx, cfg: &HistCfg, b: &'a B, op
                 }
                 if checks.record_canon {
                     res.canon.push(bdd_canon_string(got));
+                }
+                if checks.keep_ptrs {
+                    res.ptrs.push(got);
                 }
                 // the pool records the *oracle's* function when the function check is
                 // on (so one wrong result does not cascade), else what was observed
@@ -694,8 +700,28 @@ macro_rules! with_robdd {
     }};
 }
 
-pub fn run_history(ctx: &mut Ctx, cfg: &HistCfg, ops: &[Op], checks: &Checks) -> HistResult {
-    with_robdd!(cfg, b, { exec_history(ctx, cfg, b, ops, checks) })
+/// run a history on a fresh builder; the builder is dropped afterwards, so the
+/// result carries no pointers
+pub fn run_history(ctx: &mut Ctx, cfg: &HistCfg, ops: &[Op], checks: &Checks) -> HistStats {
+    with_robdd!(cfg, b, {
+        let r = exec_history(ctx, cfg, b, ops, checks);
+        HistStats { canon: r.canon, grows: r.grows, lru_grows: r.lru_grows, lru_conflicts: r.lru_conflicts, nodes: r.nodes }
+    })
+}
+
+#[derive(Default)]
+pub struct HistStats {
+    pub canon: Vec<String>,
+    pub grows: u64,
+    pub lru_grows: u64,
+    pub lru_conflicts: u64,
+    pub nodes: usize,
+}
+
+/// execute a history without checks and return the result pointers
+pub fn exec_history_collect<'a, B: Robdd<'a>>(ctx: &mut Ctx, cfg: &HistCfg, b: &'a B, ops: &[Op]) -> Vec<BddPtr<'a>> {
+    let checks = Checks { keep_ptrs: true, ..Default::default() };
+    exec_history(ctx, cfg, b, ops, &checks).ptrs
 }
 
 /// a random configuration for the "short random" regime
